@@ -629,3 +629,38 @@ Proof.
   rewrite (resolve_ok_root cwd root Hwf fs Ha). rewrite Hjn.
   rewrite (mkdir_all_existing fs cwd root Ha Hdir). reflexivity.
 Qed.
+
+(* ---- modification times: what could change them outside ---- *)
+(* The mtime of a regular file changes when the file is written, that of a directory when an entry is
+   added to or removed from it.  No operation of the model writes an outside path (containment), and
+   the set of entries of every directory outside the output directory is the same afterwards: *)
+Lemma root_exists fs cwd outdir root :
+  (forall k, look fs (Nat.iter k (@removelast name) cwd) = Some NDir) ->
+  eval_symlinks_str fs cwd outdir = Some root -> look fs (phys_of cwd root) <> None.
+Proof.
+  intros Hc He. apply eval_symlinks_good in He.
+  destruct He as [E|[init [last [n [E [_ [_ [Hl _]]]]]]]]; [|rewrite Hl; discriminate].
+  rewrite phys_of_nbase, E, app_nil_r. unfold nbase. destruct (n_abs root); [discriminate|].
+  rewrite Hc. discriminate.
+Qed.
+
+Theorem outside_directory_entries_unchanged fs cwd outdir pathflag roots root fs' res :
+  (forall k, look fs (Nat.iter k (@removelast name) cwd) = Some NDir) ->
+  eval_symlinks_str fs cwd outdir = Some root ->
+  extract_cmd true fs cwd outdir pathflag roots = (fs', res) ->
+  forall q c, ~ under (phys_of cwd root) q ->
+    (look fs' (q ++ [c]) = None <-> look fs (q ++ [c]) = None).
+Proof.
+  intros Hc He H q c Hq.
+  destruct (under_dec (phys_of cwd root) (q ++ [c])) as [[s E]|Hn].
+  - (* q ++ [c] is the output directory itself: it was there and still is *)
+    assert (s = []).
+    { destruct (list_snoc_cases s) as [->|[s' [x ->]]]; [reflexivity|].
+      rewrite app_assoc in E. apply app_inj_tail in E as [E _]. exfalso. apply Hq. exists s'. exact E. }
+    subst s. rewrite app_nil_r in E. rewrite E.
+    pose proof (root_exists _ _ _ _ Hc He) as Hex.
+    destruct (look fs (phys_of cwd root)) as [n|] eqn:L; [|contradiction].
+    destruct (extract_cmd_preserves _ _ _ _ _ _ _ _ Hc He H _ _ L) as [n' [L' _]].
+    rewrite L'. split; discriminate.
+  - rewrite (extract_cmd_contained _ _ _ _ _ _ _ _ Hc He H _ Hn). tauto.
+Qed.
